@@ -148,9 +148,14 @@ def truth_records(draw, min_storms=4, max_storms=10, noise=False,
             a, b = draw(st.sampled_from(long_spells))
             first = draw(st.integers(a + 1, b - 2))
             removed = set(range(first, first + draw(st.integers(1, 2))))
+    extra = {'gen': 'truth', 'thr_units': thr_units}
+    if gaps and dt % 2 == 0 and draw(st.integers(0, 2)) == 0:
+        # a logger twice as dense as the rain grid (the readings between
+        # grid times lie on the straight line, so the truth is untouched);
+        # a skipped on-grid reading then leaves a hole of one rain step
+        extra.update({'fine_removed': [], 'fine_keep_mids': True})
     case = gen_records.assemble(
-        dt, t0, tz, rain, z, 0, [], [], removed, et_vals, s, j,
-        {'gen': 'truth', 'thr_units': thr_units})
+        dt, t0, tz, rain, z, 0, [], [], removed, et_vals, s, j, extra)
     case['truth'] = {'r_units': r, 'sy': sy, 'recessions': intervals,
                      'rises': rises, 'noise': bool(noise), 'k_s': k_s}
     return case
